@@ -67,7 +67,7 @@ def run(ctx):
     for name in sorted(found):
         for kind, kwargs in seed.FIXTURES.get(name, []):
             for shape in ([3, 3], [4, 5]):
-                for sd in (ctx.pick([7, 8], [0, 7, 12345])):
+                for sd in (ctx.pick([0, 7], [0, 7, 12345])):         # 0 is a seed like any other
                     for fail_at in (None, 1, 2):
                         k += 1
                         jobs.append({"fn": name, "kind": kind, "kwargs": kwargs, "seed": sd, "shape": shape,
@@ -101,8 +101,8 @@ def run(ctx):
     jobs = []
     k = 0
     for mode in ("exposure", "observation", "observation_dask"):
-        for pseed in ctx.pick([5], [0, 5, 99]):
-            for mseed in (None, 3):
+        for pseed in ctx.pick([0, 5], [0, 5, 99]):
+            for mseed in (None, 0, 3):
                 for fail in (False, True):
                     for shape in ([3, 3], [2, 3]):
                         k += 1
